@@ -791,3 +791,53 @@ def r13(R):
                 'cannot be named to undo(), although iterator() reports it'
                 % (cn, meth, k, ref[0]),
                 key='backward walk stops short of the first transaction')
+
+
+# ------------------------------------------------------------------ C06.R14
+@rule('C06.R14', 'an undo that is refused has put nothing in the blob '
+      'directory: in _txn_undo_write no blob file is stored on a path on '
+      'which the undo can still be refused (a deliberate raise follows)',
+      props=['C13', 'C05'], min_instances=1)
+def r14(R):
+    cls = R.prog.cls(FS)
+    f = R.method(cls, '_txn_undo_write')
+    g, b, F = R.cfg(f, cls, max_depth=0)
+    seen = [0]
+
+    def stores_blob(node):
+        return any(op.kind == 'call' and op.path is not None and
+                   op.path[-1] in ('_blob_storeblob', 'storeBlob',
+                                   'rename_or_copy_blob')
+                   for op in F.ops(node))
+
+    def edge(node, st, lab, tgt):
+        if lab in ('e', 'eb'):
+            return st
+        if stores_blob(node):
+            seen[0] += 1
+            return True
+        return st
+
+    def at(node, st):
+        if st and node.kind == 'raise' and node.frame.parent is None and \
+                isinstance(node.ast, ast.Raise) and node.ast.exc is not None:
+            return Violation(
+                '_txn_undo_write stores a blob file and can still refuse '
+                'the undo afterwards (`%s`): the refusal is an exception of '
+                'one call, the storage transaction may go on -- the copy '
+                'stays as a file without a record, or, after a successful '
+                'undo of the same blob in the same transaction, has '
+                'replaced that undo\'s file: the committed record says one '
+                'thing, the blob file another' %
+                ' '.join(ast.unparse(node.ast).split())[:70])
+        return st
+
+    vs, stats = explore(g, False, at=at, edge=edge)
+    R.count(stats)
+    R.instance('FileStorage._txn_undo_write', blob_stores=seen[0])
+    R.require(seen[0] >= 1, '_txn_undo_write no longer stores the blob file '
+              'of an undone blob change')
+    for v in vs[:1]:
+        R.violation(v.node, v.message, g, v.path,
+                    key='blob stored before the undo can no longer be '
+                        'refused')
